@@ -291,6 +291,7 @@ func runC13(c *Check) {
 	c.ruleRequestFilledWhereFound("R18")
 	c.ruleSizesSubtractedBeforeCut("R19")
 	c.ruleMembershipByHashOnly("R20")
+	c.ruleProcessedBlockIsPoppedBlock("R23")
 	c.ruleGetterConsultsPrimary("R21", "state.(*State).BlockIsToBeRequested", "blocksToRequest")
 	c.ruleGetterConsultsPrimary("R21", "state.(*State).BlockIsRequested", "blocksRequested")
 	c.whoMayCall("R22", "(*state.State).AddBlockRequest", map[string]string{"handlers.(*HeadersHandler).Handle": "announced headers"}, 3)
